@@ -632,7 +632,8 @@ impl CodegenContext {
                                 .allowed("fill")
                                 .allowed("filename")
                                 .extract(id.span, &kvps)?;
-                            let name = Identifier::new(extractor.get_string(self, "name")?);
+                            let name = extractor.get_string(self, "name")?;
+                            let name = self.to_identifier(id.span, name)?;
 
                             let opts = BankOptions {
                                 name: name.clone(),
@@ -665,7 +666,8 @@ impl CodegenContext {
                                 .extract(id.span, &kvps)?;
 
                             let mut opts = SegmentOptions::default();
-                            let name = Identifier::new(extractor.get_string(self, "name")?);
+                            let name = extractor.get_string(self, "name")?;
+                            let name = self.to_identifier(id.span, name)?;
                             match extractor.try_get_i64(self, "start") {
                                 Ok(Some(val)) => {
                                     log::trace!(
@@ -694,8 +696,10 @@ impl CodegenContext {
                             if let Some(write) = extractor.try_get_i64(self, "write")? {
                                 opts.write = write != 0;
                             }
-                            opts.bank =
-                                extractor.try_get_string(self, "bank")?.map(Identifier::new);
+                            opts.bank = match extractor.try_get_string(self, "bank")? {
+                                Some(bank) => Some(self.to_identifier(id.span, bank)?),
+                                None => None,
+                            };
                             match extractor.try_get_i64(self, "pc")? {
                                 Some(target) => opts.target_address = target.into(),
                                 None => opts.target_address = opts.initial_pc,
@@ -1092,10 +1096,11 @@ impl CodegenContext {
                 }
             }
             Token::Segment { id, block, .. } => {
-                if let Some(segment_id) = self
-                    .evaluate_expression_as_string(id, true)?
-                    .map(Identifier::new)
-                {
+                let segment_id = match self.evaluate_expression_as_string(id, true)? {
+                    Some(segment_id) => Some(self.to_identifier(id.span, segment_id)?),
+                    None => None,
+                };
+                if let Some(segment_id) = segment_id {
                     if !self.segments.contains_key(&segment_id) {
                         return Err(Diagnostic::error()
                             .with_message(format!("unknown identifier: {}", id.data))
@@ -1180,6 +1185,18 @@ impl CodegenContext {
         }
 
         Ok(())
+    }
+
+    /// Segment and bank names become symbols (e.g. `segments.name.start`), so they cannot contain periods
+    fn to_identifier(&self, span: Span, name: String) -> CoreResult<Identifier> {
+        if name.contains('.') {
+            Err(Diagnostic::error()
+                .with_message(format!("'{}' is not a valid identifier", name))
+                .with_labels(vec![span.to_label()])
+                .into())
+        } else {
+            Ok(Identifier::new(name))
+        }
     }
 
     fn map_evaluation_error(&self, error: EvaluationError) -> Diagnostics {
